@@ -265,6 +265,7 @@ def whole_run(ctx: Ctx, n_runs: int):
 
 
 def run(ctx: Ctx):
+    G.cap_violations(ctx)
     run_v1(ctx, ctx.scale(300, 6000))
     run_v2(ctx, ctx.scale(500, 10000))
     whole_run(ctx, ctx.scale(3, 8))
